@@ -268,6 +268,12 @@ pub fn seeds(tier: Tier) -> Vec<Seed> {
             if lg_k >= 8 {
                 let set: Vec<u32> = (0..12).map(|i| coupon(i * 37 + 3, 1 + (i % 6) as u8)).collect();
                 out.push(Seed { name: format!("hll/lg{lg_k}/Hll{tn}/set12/own"), family: "hll", entries: vec![0], bytes: mk(&set), fields: hll_fields(1) });
+                // counts at and just above a power of two: a one-field change of lgArr then makes the
+                // table exactly full / over-full, which only a correct load check rejects
+                for cnt in [16u32, 17] {
+                    let set: Vec<u32> = (0..cnt).map(|i| coupon(i * 37 + 3, 1 + (i % 6) as u8)).collect();
+                    out.push(Seed { name: format!("hll/lg{lg_k}/Hll{tn}/set{cnt}/own"), family: "hll", entries: vec![0], bytes: mk(&set), fields: hll_fields(1) });
+                }
                 if tn == 4 {
                     out.push(Seed { name: format!("hll/lg{lg_k}/set12/updatable"), family: "hll", entries: vec![0], bytes: spec_hll::encode_set(lg_k, tn, &set, EncOpts { compact: false, ooo: false, lg_arr: 5, extra_flags: 0 }), fields: hll_fields(1) });
                 }
